@@ -2,7 +2,7 @@
    BaseNode / Node share (model Heap/Forest.v).  The BinaryNode and DAGNode shares are proved in
    Heap/BinaryProofs.v and Heap/DagProofs.v and restated at the end of this file. *)
 From BT Require Import Base.Prelude Base.Str Heap.Forest Heap.ForestWF Heap.ForestOps
-     Heap.ForestRollback Heap.ForestStep Heap.ForestRefl Spec.PForest.
+     Heap.ForestRollback Heap.ForestStep Heap.ForestRefl Spec.PForest Corr.ForestCorr Corr.ForestCorrProofs.
 
 (* any single assignment (parent, children, append, >>, <<, del by name) that does not return
    normally — wrong type, loop, repeated child, duplicate sibling name, or a user hook raising
@@ -46,6 +46,19 @@ Theorem C02_every_history : forall cfg n names seps ops o,
   snd (step cfg s o) <> Ok -> same (fst (step cfg s o)) s.
 Proof. intros cfg n names seps ops o Ho s H. apply step_atomic; [apply run_WF, WF_init|exact Ho|exact H]. Qed.
 Print Assumptions C02_every_history.
+
+(* a constructor call Node(name, parent=p, children=cs) is the parent assignment followed by the
+   children assignment: when it raises, either the parent assignment was refused and NOTHING changed
+   (in particular the proposed children are untouched), or the accepted parent assignment is in
+   place and the refused children assignment changed nothing *)
+Theorem C02_constructor_phases : forall cfg s i pa cont cargs ftp ftc,
+  WF s ->
+  let r := cstep cfg s (Construct i pa cont cargs ftp ftc) in
+  snd r <> Ok ->
+  (snd (step cfg s (SetParent i pa ftp)) <> Ok /\ same (fst r) s)
+  \/ (exists s1, step cfg s (SetParent i pa ftp) = (s1, Ok) /\ same (fst r) s1).
+Proof. exact construct_atomic_phases. Qed.
+Print Assumptions C02_constructor_phases.
 
 (* non-vacuity, and the witness of defect F1: p.children = [x;y;z]; q.children = [y;x] fails in the
    post-assign hook.  With the ascending-index restore the donor list comes back as [x;y;z]. *)
